@@ -81,6 +81,31 @@ struct Env {
     parser: liquid::Parser,
 }
 
+/// a value with the same shape as `v` but more members everywhere: arrays get extra elements,
+/// objects an extra key, scalars stay
+fn decoy_for(v: &RVal) -> RVal {
+    match v {
+        RVal::Array(xs) => {
+            let mut ys: Vec<RVal> = xs.iter().map(decoy_for).collect();
+            for k in 0..3 {
+                ys.push(RVal::Str(format!("decoy{k}")));
+            }
+            RVal::Array(ys)
+        }
+        RVal::Object(kv) => {
+            let mut kv2: Vec<(String, RVal)> = kv.iter().map(|(k, v)| (k.clone(), decoy_for(v))).collect();
+            for k in ["zz", "7", "0", "k", "é", "x_1"] {
+                if !kv2.iter().any(|(kk, _)| kk == k) {
+                    kv2.push((k.to_string(), RVal::Str(format!("decoy-{k}"))));
+                }
+            }
+            RVal::Object(kv2)
+        }
+        RVal::Nil => RVal::Array(vec![RVal::Str("decoy".into())]),
+        other => other.clone(),
+    }
+}
+
 /// render `{{ <path> | vdump }}` and `{{ <path> }}` in one of three index-supply forms and judge
 fn check_path(ctx: &mut Ctx, env: &Env, root: &RVal, idxs: &[RVal], expect: &Look, form: usize, dot_bits: u32) {
     // source text of the path
@@ -89,7 +114,7 @@ fn check_path(ctx: &mut Ctx, env: &Env, root: &RVal, idxs: &[RVal], expect: &Loo
     let mut ix_obj: Vec<(String, RVal)> = Vec::new();
     for (k, idx) in idxs.iter().enumerate() {
         match form {
-            0 => match idx {
+            0 | 3 => match idx {
                 RVal::Str(key) if is_ident(key) && dot_bits >> k & 1 == 1 => path.push_str(&format!(".{key}")),
                 other => path.push_str(&format!("[{}]", lit_src(other))),
             },
@@ -106,7 +131,16 @@ fn check_path(ctx: &mut Ctx, env: &Env, root: &RVal, idxs: &[RVal], expect: &Loo
     if form == 2 {
         data.push(("ix".into(), RVal::Object(ix_obj)));
     }
-    let src = format!("{{{{ {path} | vdump }}}}|{{{{ {path} }}}}");
+    let mut prefix = String::new();
+    if form == 3 {
+        // the root is re-assigned in the template: `r` is first bound (as caller data) to a decoy
+        // that has MORE structure than the real root, so a lookup that falls through to the
+        // shadowed binding when a step is missing would find something
+        data[0].1 = decoy_for(root);
+        data.push(("q".into(), root.clone()));
+        prefix = "{% assign r = q %}".to_string();
+    }
+    let src = format!("{prefix}{{{{ {path} | vdump }}}}|{{{{ {path} }}}}");
     let h = hash_str(&format!("{src}|{}", RVal::Object(data.clone()).dump()));
     if !ctx.mine(h) {
         return;
@@ -158,7 +192,7 @@ fn walk(ctx: &mut Ctx, env: &Env, root: &RVal, cur: &RVal, idxs: &mut Vec<RVal>,
         let look = step(cur, &c);
         // thin out deep paths in the quick tier
         if idxs.len() <= 2 || rng.chance(1, sample_den) {
-            for form in 0..3 {
+            for form in 0..4 {
                 let bits = rng.next() as u32;
                 check_path(ctx, env, root, idxs, &look, form, bits);
                 if form == 0 {
